@@ -15,7 +15,9 @@ fn c03_profile(rng: &mut Rng, n_ops: usize) -> Profile {
 }
 
 /// insert overwrite-only and delete-only windows between two syncs (dirty flag variants)
-fn add_windows(h: &mut History, rng: &mut Rng) {
+/// `wrap_window`: additionally exactly 2^16 updates between two sync points at the end of the history (and 2^8 near the
+/// start): a bookkeeping of "updates since the last flush" in a narrow counter must not wrap onto "clean"
+fn add_windows(h: &mut History, rng: &mut Rng, wrap_window: bool) {
     let nk = h.keys.len().max(1);
     let mut extra: Vec<Op> = Vec::new();
     // created-only case: first sync before any update
@@ -43,7 +45,21 @@ fn add_windows(h: &mut History, rng: &mut Rng) {
     extra.push(Op::Put(0, ValSpec { len: 9, seed: 6, kind: 0 }));
     extra.push(Op::Flush);
     extra.push(rng.pick(&[Op::SyncAll, Op::SyncData, Op::DbSyncAll, Op::DbSyncData]).clone());
+    // exactly 2^8 updates between two sync points
+    for j in 0..256u32 {
+        extra.push(Op::Put(j as usize % nk.min(3), ValSpec { len: 4, seed: j, kind: 0 }));
+    }
+    extra.push(Op::Flush);
     extra.extend(h.ops.drain(..));
+    if wrap_window {
+        for (n, first, last) in [(65_536u32, Op::SyncData, Op::Flush), (65_535, Op::Flush, Op::Flush), (65_536, Op::Flush, Op::DbSyncData)] {
+            extra.push(first);
+            for j in 0..n {
+                extra.push(Op::Put(j as usize % nk.min(2), ValSpec { len: 5, seed: j, kind: 0 }));
+            }
+            extra.push(last);
+        }
+    }
     h.ops = extra;
 }
 
@@ -112,13 +128,14 @@ fn c03_history<K: Kt>(a: &Args, h: &History, ctx: &mut Ctx, rng: &mut Rng) -> Op
     let db = s.db.clone().unwrap();
     // side maps: one u64 map with updates, one string map that is only created (never updated) half of the time
     let with_side = rng.chance(2, 3);
-    let mut side: Option<Side> = if with_side {
+    // half of the time the side maps are created only after the first database-level sync has happened
+    let late_side = with_side && rng.chance(1, 2);
+    let make_side = |db: &abyssiniandb::filedb::FileDb| -> Side {
         let u = db.db_map_u64_with_params("side_u", Cfg::small(16).params()).unwrap();
         let sm = db.db_map_string_with_params("side_s", Cfg::small(4).params()).unwrap();
-        Some(Side { u, um: Model::new(), u_dirty: false, s: Some(sm), sm: Model::new(), s_dirty: false })
-    } else {
-        None
+        Side { u, um: Model::new(), u_dirty: false, s: Some(sm), sm: Model::new(), s_dirty: false }
     };
+    let mut side: Option<Side> = if with_side && !late_side { Some(make_side(&db)) } else { None };
     let only_created = rng.chance(1, 2);
     // a map that was only created has no *updates* yet: no sync request is demanded for it (its files must
     // still be valid in the snapshot, which the snapshot monitor checks)
@@ -231,6 +248,10 @@ fn c03_history<K: Kt>(a: &Args, h: &History, ctx: &mut Ctx, rng: &mut Rng) -> Op
             if let Some(sd) = side.as_mut() {
                 sd.u_dirty = false;
                 sd.s_dirty = false;
+            }
+            if late_side && side.is_none() {
+                side = Some(make_side(&db));
+                ctx.count("side_maps_created_after_db_sync", 1);
             }
         }
     }
@@ -369,7 +390,7 @@ pub fn c03_genhist(a: &Args) -> i32 {
     let cfg = Cfg { buckets: Cfg::random_buckets(&mut rng, false), key: Cfg::random_buf(&mut rng), val: Cfg::random_buf(&mut rng), htx: Cfg::random_buf(&mut rng) };
     let mut gen = Gen::new(rng.next(), &ed);
     let mut h = gen_history_kt("bytes", &mut gen, &p, cfg, "c03 strace history");
-    add_windows(&mut h, &mut rng);
+    add_windows(&mut h, &mut rng, false);
     match a.out.as_ref().map(|o| std::fs::write(o, h.to_text("C03", None, ""))) {
         Some(Ok(())) => 0,
         _ => 2,
@@ -390,7 +411,11 @@ pub fn c03(a: &Args) -> Ctx {
         let cfg = Cfg { buckets: Cfg::random_buckets(&mut rng, false), key: Cfg::random_buf(&mut rng), val: Cfg::random_buf(&mut rng), htx: Cfg::random_buf(&mut rng) };
         let mut gen = Gen::new(rng.next(), &ed);
         let mut h = gen_history_kt(kt, &mut gen, &p, cfg, &format!("c03 shard={} i={i}", a.shard));
-        add_windows(&mut h, &mut rng);
+        let wrap = i == 0 && a.shard % 4 == 1;
+        if wrap {
+            ctx.count("wrap_window_histories", 1);
+        }
+        add_windows(&mut h, &mut rng, wrap);
         let mut r2 = rng.fork();
         fn go<K: Kt>(a: &Args, h: &History, ctx: &mut Ctx, rng: &mut Rng) -> Option<Stop> {
             c03_history::<K>(a, h, ctx, rng)
